@@ -170,7 +170,7 @@ func runBInner(s *BScript) (nontrivial bool, f *vt.Finding) {
 		rec.unexplained = unexplainedOvershoot(s.Signal, s.Sizer, v, s.Max)
 		// a resource / scope / metric entry without any item: what is left of a request whose items were all
 		// extracted into earlier batches travels on as such an entry
-		rec.itemless = len(sig.StandaloneSizes(v)) > rec.units
+		rec.itemless = sig.HasItemless(v)
 		if s.Sizer == "items" {
 			rec.size = sig.Count(v)
 		} else {
